@@ -37,6 +37,7 @@ class Ranges:
         self.body = body
         self.acc = {}           # (loop header, place id) -> (lo, hi) total drift of a bounded accumulator
         self.refine = {}        # term -> (lo, hi)
+        self.nonzero = set()    # terms a passed condition found != 0
         self.ptypes = {}
         for i in range(body["argc"]):
             l = body["locals"][i + 1]
@@ -45,6 +46,7 @@ class Ranges:
     def copy(self):
         r = Ranges(self.P, self.body)
         r.refine = dict(self.refine)
+        r.nonzero = set(self.nonzero)
         r.acc = self.acc
         return r
 
@@ -191,7 +193,9 @@ class Ranges:
                 return INT_RANGES[rt]
             return None
         if k == "trailing_zeros":
-            return (0, 64)
+            # of a word the path has found non-zero: the index of its lowest set bit
+            r = self.refine.get(t[1])
+            return (0, 63) if (t[1] in self.nonzero or (r and r[0] >= 1)) else (0, 64)
         if k == "abs_diff":
             a, b = self.rng(t[1]), self.rng(t[2])
             if a and b:
@@ -289,6 +293,8 @@ class Ranges:
                 elif o == "Ge":
                     lo = max(lo, ry[0])
                 elif o == "Ne" and ry[0] == ry[1]:
+                    if ry[0] == 0:
+                        self.nonzero.add(x)
                     if lo == ry[0]:
                         lo += 1
                     if hi == ry[0]:
